@@ -244,6 +244,31 @@ fn snapshot(db: &SparqlDatabase) -> Result<BTreeSet<UQuad>, String> {
     Ok(out)
 }
 
+/// A panic named by source file and message with every number and quoted value blanked
+/// ("begin > end (1 > 0) when slicing `\"`" -> "begin > end (N > N) when slicing"): line
+/// numbers move with every edit of the file and must not be part of a signature.
+fn panic_kind(msg: &str) -> String {
+    let site = panic_site(msg);
+    let file = site.rsplit_once(':').map(|(f, _)| f.to_string()).unwrap_or(site);
+    let text = msg.rsplit_once(" @ ").map(|(m, _)| m).unwrap_or(msg);
+    // cut at the first quoted value, blank the numbers
+    let text = text.split('`').next().unwrap_or("").trim_end();
+    let mut out = String::new();
+    let mut last_digit = false;
+    for c in text.chars() {
+        if c.is_ascii_digit() {
+            if !last_digit {
+                out.push('N');
+            }
+            last_digit = true;
+        } else {
+            out.push(c);
+            last_digit = false;
+        }
+    }
+    format!("{}: {}", file, out.chars().take(80).collect::<String>())
+}
+
 enum Res {
     Same { structural_same: bool, relabelled: bool, text_len: usize },
     Diff { text: String, expected: BTreeSet<LexQuad>, got: BTreeSet<LexQuad> },
@@ -256,7 +281,7 @@ impl Res {
     fn mode(&self) -> Option<String> {
         match self {
             Res::Diff { .. } => Some("diff".into()),
-            Res::Panic { stage, msg } => Some(format!("panic/{}/{}", stage, panic_site(msg))),
+            Res::Panic { stage, msg } => Some(format!("panic/{}/{}", stage, panic_kind(msg))),
             _ => None,
         }
     }
@@ -1620,7 +1645,7 @@ fn report_one(ctx: &mut Ctx, c: &Case, f: F, first: &Res, origin: &str, backward
             json!({"kind": "reimport_differs", "format": f.name(), "fault": side, "irreducible": feats}),
             json!({"reduced_case": case_json(&small), "irreducible_features_in_full": features(&small), "exported_text": text, "expected_lexical_quads": lexquads_json(expected, 8), "reimported_lexical_quads": lexquads_json(got, 8), "effect_on_reduced_case": effect(expected, got), "fault_attribution": side_detail, "found_in": origin, "original_case": case_json(&Case { quads: c.quads.iter().take(12).cloned().collect(), prefixes: c.prefixes.clone() }), "original_quads": c.quads.len()}),
         ),
-        Res::Panic { stage, msg } => (json!({"kind": "panic", "format": f.name(), "stage": stage, "site": panic_site(msg), "fault": side, "irreducible": feats}), json!({"reduced_case": case_json(&small), "irreducible_features_in_full": features(&small), "panic": msg, "fault_attribution": side_detail, "found_in": origin})),
+        Res::Panic { stage, msg } => (json!({"kind": "panic", "format": f.name(), "stage": stage, "panic": panic_kind(msg), "fault": side, "irreducible": feats}), json!({"reduced_case": case_json(&small), "irreducible_features_in_full": features(&small), "panic": msg, "site": panic_site(msg), "fault_attribution": side_detail, "found_in": origin})),
         _ => {
             // cannot happen: the reducer only accepts failing cases
             (json!({"kind": "reduction_lost_the_failure", "format": f.name()}), json!({"case": case_json(c)}))
